@@ -58,52 +58,8 @@ pub proof fn ks_run_by_states(k: KStep, s: KAbs, n: nat, states: spec_fn(int) ->
     }
 }
 
-pub trait StreamCipherBackend: ParBlocksSizeUser {
-    spec fn kabs(&self) -> KAbs;
-    #[verifier::prophetic]
-    spec fn kabs_fut(&self) -> KAbs;
-    spec fn kstep(&self) -> KStep;
-
-    fn gen_ks_block(&mut self, block: &mut Block<Self>)
-        ensures
-            final(self).kstep() == old(self).kstep(),
-            final(self).kabs_fut() == old(self).kabs_fut(),
-            (final(self).kabs(), final(block)@) == old(self).kstep()(old(self).kabs());
-
-    // default body in the dependency: `for block in blocks { self.gen_ks_block(block) }` (assumed, D3)
-    #[verifier::external_body]
-    fn gen_par_ks_blocks(&mut self, blocks: &mut ParBlocks<Self>)
-        ensures
-            final(self).kstep() == old(self).kstep(),
-            final(self).kabs_fut() == old(self).kabs_fut(),
-            (final(self).kabs(), views(final(blocks)@)) == ks_run(old(self).kstep(), old(self).kabs(), Self::ParBlocksSize::USIZE as nat)
-    { unimplemented!() }
-}
-
-pub trait StreamCipherClosure: BlockSizeUser + Sized {
-    #[verifier::prophetic]
-    spec fn kpost(&self, k: KStep, a0: KAbs, a1: KAbs) -> bool;
-    fn call<B: StreamCipherBackend<BlockSize = Self::BlockSize>>(self, backend: &mut B)
-        ensures self.kpost(old(backend).kstep(), old(backend).kabs(), final(backend).kabs()),
-                final(backend).kstep() == old(backend).kstep(),
-                final(backend).kabs_fut() == old(backend).kabs_fut();
-}
-
-pub trait StreamCipherCore: BlockSizeUser + Sized {
-    spec fn kabs(&self) -> KAbs;
-    spec fn kstep(&self) -> KStep;
-    // number of keystream blocks left before the generator would repeat (None: unbounded / not representable)
-    spec fn klimit(&self) -> Option<int>;
-
-    fn remaining_blocks(&self) -> (r: Option<usize>)
-        ensures
-            r is Some ==> self.klimit() is Some && r->Some_0 as int == self.klimit()->Some_0,
-            r is None ==> self.klimit() is None || self.klimit()->Some_0 > usize::MAX;
-
-    fn process_with_backend<SCL: StreamCipherClosure<BlockSize = Self::BlockSize>>(&mut self, f: SCL)
-        ensures f.kpost(old(self).kstep(), old(self).kabs(), final(self).kabs()),
-                final(self).kstep() == old(self).kstep();
-}
+// StreamCipherBackend / StreamCipherClosure / StreamCipherCore are extracted from the pinned `cipher` crate
+// (contracts/dep_stream.py): their default methods and the Apply*/Write* drivers are verified text (D3).
 
 pub trait StreamCipherCounter {}
 impl StreamCipherCounter for u32 {}
